@@ -343,6 +343,10 @@ func (s subSubscription) Resolve(field *ggql.Field, args map[string]interface{})
 	sid := toInt(args["sid"])
 	sub := s.w.Subs[sid]
 	if sub == nil {
+		if sid == 98 {
+			// refused with a group of errors
+			return nil, ggql.Errors{errors.New("unknown subscriber 98"), errors.New("and no room for it")}
+		}
 		return nil, errors.New("unknown subscriber " + strconv.Itoa(sid))
 	}
 	sub.Args = args
